@@ -29,6 +29,12 @@ class Scratch:
         os.makedirs(self.dir)
         subprocess.run(['rsync', '-a', '--exclude', 'target', '--exclude', '.git', REPO + '/', self.repo + '/'],
                        check=True)
+        # cargo fingerprints sources by mtime and the target dir is shared between runs:
+        # give every source file a fresh mtime so the crate is always rebuilt from THIS tree
+        now = time.time()
+        for root, _, files in os.walk(os.path.join(self.repo, 'src')):
+            for fn in files:
+                os.utime(os.path.join(root, fn), (now, now))
         lib = os.path.join(self.repo, 'src', 'lib.rs')
         with open(lib) as f:
             t = f.read()
